@@ -93,3 +93,39 @@ CHECKS["C10"] = dict(
     assumptions=E1_ASSUME + E2_ASSUME,
     units=[dict(pkg="nflog", test="TestVerifC10", gomaxprocs=1, shards_quick=16, shards_thorough=16, budget_quick=90, budget_thorough=1200)],
 )
+
+FAPP_ASSUME = E1_ASSUME + [
+    "F-app: the whole real app.App (clustering off) in one synctest bubble; receivers are scripted Notifiers installed through the overlay hook in config/receiver.BuildReceiverIntegrations; HTTP requests go through the real handler in-process",
+    "ground truth (firing / silenced / accepting intervals) is computed from the harness's own event list; obligations are evaluated only on windows in which the premise held for the whole window; retry backoff jitter is removed (overlay) so retry instants are exact",
+]
+
+CHECKS["C01"] = dict(
+    level="model_checking",
+    engine="seqx+schedx",
+    rule="all event sequences up to the completed depth over {fire A1 (heartbeat), fire A2 (explicit end), fire A3 (other group), resolve, silence on/off, integration mode recoverable/unrecoverable/hang/ok, reload, advance 4s/10s/30s/61s} on the real App, closed by a 3m30s tail; plus controlled-scheduler scenarios of alert insertion racing group destruction and maintenance; states = distinct delivery traces / outcomes; transitions = events / synchronisation steps",
+    technique="bounded-exhaustive event-sequence exploration of the assembled implementation under virtual time with trace monitors; preemption-bounded schedule exploration of insert vs flush-destroy vs maintenance",
+    level_text="Every history is executed on the fully assembled real instance (provider, dispatcher, inhibitor, silencer, dedup, retry, nflog, API). Monitors: eligible+accepting for longer than B => successful notification listing the alert firing by B and never omitted for longer than B afterwards; retry law inside a flush; C04 and C05 monitors run as well.",
+    level_note="B = max(group_wait, group_interval) + 20s slack (hang 8s + largest backoff gap). One route shape here; routing shapes are C07's, cluster wait C08's.",
+    assumptions=FAPP_ASSUME,
+    units=[dict(pkg="app", test="TestVerifC01App", shards_quick=16, shards_thorough=16, budget_quick=100, budget_thorough=1500)],
+)
+CHECKS["C04"] = dict(
+    level="model_checking",
+    engine="seqx",
+    rule="all event sequences up to the completed depth over {fire A1/A2 (explicit end), resolve A1/A2, silence A2 on/off, all integrations failing/ok, restart on the same data dir, reload, advance 10s/30s/2m/2m31s} on the real App (nflog maintenance every 50s), 5m tail; states = distinct delivery traces; transitions = events",
+    technique="bounded-exhaustive event-sequence exploration of the assembled implementation under virtual time with a justification / repeat-window trace monitor",
+    level_text="Per (group, integration) every successful notification must be justified w.r.t. the previous one (new firing alert, newly resolved alert with send_resolved, > repeat_interval, or a quiet moment in between); an unchanged firing group is re-notified by repeat_interval + group_interval + slack; a notification without firing alerts directly follows one with firing alerts. Restart and reload are ordinary events (real snapshot files).",
+    level_note="repeat_interval 2m, group_interval 30s, retention 10m; two integrations (send_resolved true/false).",
+    assumptions=FAPP_ASSUME,
+    units=[dict(pkg="app", test="TestVerifC04App", shards_quick=16, shards_thorough=16, budget_quick=100, budget_thorough=1500)],
+)
+CHECKS["C05"] = dict(
+    level="model_checking",
+    engine="seqx",
+    rule="all event sequences up to the completed depth over {fire A heartbeat / explicit end, resolve A, fire B, webhook hang 8s / recoverable / ok, advance 3s/10s/30s/61s} on the real App, 3m tail; states = distinct delivery traces; transitions = events",
+    technique="bounded-exhaustive event-sequence exploration of the assembled implementation under virtual time with a resolved-truth trace monitor",
+    level_text="No payload lists an alert resolved while the submitted timeline says it fires; send_resolved=false integrations never receive resolved alerts; an alert told firing that ends (explicitly or by timeout) is told resolved within B unless it re-fired; a group that resolved entirely inside group_wait sends nothing; re-fire during an in-flight (hanging) resolved delivery is reported firing at the next flush (C01 monitor).",
+    level_note="Ends are explicit (now) or heartbeat timeouts (resolve_timeout 1m); merge tie-breaks are C13's subject.",
+    assumptions=FAPP_ASSUME,
+    units=[dict(pkg="app", test="TestVerifC05App", shards_quick=16, shards_thorough=16, budget_quick=100, budget_thorough=1500)],
+)
